@@ -264,6 +264,16 @@ func (x *Exec) havocLoop(st *State, fr *Frame, l *loopInfo) {
 				}
 			}
 		}
+		// a *sql.Stmt variable every definition of which is nil or the result of Prepare on one and the same
+		// constant holds, whenever it is not nil, a statement prepared from that constant: an invariant that
+		// holds by construction (flow-insensitive), so it needs no annotation naming the variable
+		if text, ok := x.preparedConstOf(fr, ph); ok {
+			if p, isP := nv.(VPtr); isP && p.Loc != nil {
+				if stmts, err := ParseSQL(text); err == nil && len(stmts) == 1 {
+					st.heap[p.Loc.Obj] = &SQLStmtObj{Text: text, Stmt: stmts[0], Name: x.constNameOf(text)}
+				}
+			}
+		}
 		fr.env[ph] = nv
 		// the range-over-slice idiom of the SSA builder: idx = phi[-1, idx+1]; if idx+1 < n.
 		// idx < n is an invariant of that shape (n is loop invariant).
@@ -291,6 +301,67 @@ func (x *Exec) havocLoop(st *State, fr *Frame, l *loopInfo) {
 			}
 		}
 	}
+}
+
+// preparedConstOf: for a phi of type *sql.Stmt, the SQL text all of its non-nil definitions were prepared
+// from (through phis, transitively), if that is a single constant.
+func (x *Exec) preparedConstOf(fr *Frame, ph *ssa.Phi) (string, bool) {
+	pt, ok := ph.Type().Underlying().(*types.Pointer)
+	if !ok || !strings.HasSuffix(types.TypeString(pt.Elem(), nil), "database/sql.Stmt") {
+		return "", false
+	}
+	texts := map[string]bool{}
+	seen := map[ssa.Value]bool{}
+	okAll := true
+	var walk func(v ssa.Value)
+	walk = func(v ssa.Value) {
+		if seen[v] || !okAll {
+			return
+		}
+		seen[v] = true
+		switch n := v.(type) {
+		case *ssa.Phi:
+			for _, e := range n.Edges {
+				walk(e)
+			}
+		case *ssa.Const:
+			if !n.IsNil() {
+				okAll = false
+			}
+		case *ssa.Extract:
+			call, isCall := n.Tuple.(*ssa.Call)
+			if !isCall || n.Index != 0 {
+				okAll = false
+				return
+			}
+			cal := call.Common().StaticCallee()
+			if cal == nil || cal.Name() != "Prepare" || len(call.Common().Args) < 2 {
+				okAll = false
+				return
+			}
+			c, isC := call.Common().Args[len(call.Common().Args)-1].(*ssa.Const)
+			if !isC {
+				okAll = false
+				return
+			}
+			t, isS := constStringVal2(c)
+			if !isS {
+				okAll = false
+				return
+			}
+			texts[t] = true
+		default:
+			okAll = false
+		}
+	}
+	walk(ph)
+	if !okAll || len(texts) != 1 {
+		return "", false
+	}
+	for t := range texts {
+		return t, true
+	}
+	return "", false
 }
 
 func definedIn(l *loopInfo, v ssa.Value) bool {
